@@ -419,7 +419,7 @@ func (f *Fn) LitVar(v string) *Fn {
 		sel := role(f.W)
 		var hit []*Fn
 		for _, l := range f.Lits {
-			if l.Bound != nil && len(l.Sites(sel)) > 0 {
+			if len(l.Sites(sel)) > 0 {
 				hit = append(hit, l)
 			}
 		}
